@@ -76,8 +76,15 @@ def check_written(m, dump, written):
                         (tn, inits[0].get("ref"), id2name.get(inits[0].get("ref")), td["init"])))
         loc_edges = [e for e in td["edges"]]
         trs = te.findall("transition")
-        if any(e["srcb"] or e["dstb"] for e in loc_edges):
-            continue   # edges through branchpoints: only "never crashes" is claimed
+        # branchpoints: the writer emits one element per branchpoint; the references of edges through them must identify them
+        bps = te.findall("branchpoint")
+        if len(bps) != len(td["branchpoints"]):
+            bad.append(("branchpoint-count", "%s: %d <branchpoint> for %d branchpoints" % (tn, len(bps), len(td["branchpoints"]))))
+            continue
+        for be, bd in zip(bps, td["branchpoints"]):
+            if be.get("id") in id2name or be.get("id") is None:
+                bad.append(("branchpoint-ids", "%s: branchpoint id %s is missing or also the id of another element" % (tn, be.get("id"))))
+            id2name[be.get("id")] = bd["name"]
         if len(trs) != len(loc_edges):
             bad.append(("transition-count", "%s: %d <transition> for %d edges" % (tn, len(trs), len(loc_edges))))
             continue
@@ -85,8 +92,9 @@ def check_written(m, dump, written):
             s, d = tr.find("source"), tr.find("target")
             sn = id2name.get(s.get("ref")) if s is not None else None
             dn = id2name.get(d.get("ref")) if d is not None else None
-            if sn != ed["src"] or dn != ed["dst"]:
-                bad.append(("transition-endpoints", "%s edge %d: %s -> %s written as %s -> %s" % (tn, k, ed["src"], ed["dst"], sn, dn)))
+            if sn != (ed["src"] or ed["srcb"]) or dn != (ed["dst"] or ed["dstb"]):
+                bad.append(("transition-endpoints" + ("-branchpoint" if ed["srcb"] or ed["dstb"] else ""), "%s edge %d: %s -> %s written as %s -> %s"
+                            % (tn, k, ed["src"] or ed["srcb"], ed["dst"] or ed["dstb"], sn, dn)))
             ctrl = tr.get("controllable")
             wctrl = not (ctrl is not None and ctrl.strip().lower() == "false")
             if wctrl != ed["control"]:
@@ -143,7 +151,7 @@ def run_shard(prefs):
             for sig, detail in bad[:4]:
                 part.violation("graph:" + sig, detail + " (deviations %s)" % devs, rp)
             continue
-        part.outcome("graph-ok" + ("/branchpoint-edges-not-compared" if has_bp_edges(m) else ""))
+        part.outcome("graph-ok" + ("/with-branchpoint-edges" if has_bp_edges(m) else ""))
         if not has_bp_edges(m):
             rewritten.append(resp["written"])
             idx.append(k)
@@ -202,7 +210,8 @@ def main():
     rep.extra["choice_sequences"] = len(prefs)
     rep.assumptions = ["Python's xml.etree.ElementTree is the independent XML parser",
                        "label text is judged by re-parsing the written file with the library and comparing expression trees",
-                       "edges through branchpoints: the statement only claims that writing does not crash"]
+                       "edges through branchpoints: the statement claims that writing does not crash; since the writer emits branchpoint elements, "
+                       "their references are checked like those of locations (a dangling reference is not a graph)"]
     sys.exit(rep.finish())
 
 
